@@ -315,7 +315,10 @@ func (g *vGen) forge(from, to int) *vMsg {
 	n := s.nodes[to]
 	cid, kind, a, b, refs, live := g.liveConv(n)
 	forgedCid := [2]int{7, r.Intn(3)}
-	pick := r.Intn(14)
+	pick := r.Intn(17)
+	if pick >= 14 {
+		pick = 1
+	}
 	someValid := func(k int) []vNetTx { // valid transactions the node may or may not have
 		var l []vNetTx
 		base := ly.trunk + r.Intn(ly.L-k-1)
@@ -329,7 +332,7 @@ func (g *vGen) forge(from, to int) *vMsg {
 	case 0: // TransactionList without conversation
 		return &vMsg{T: "tl", C: &forgedCid, Num: 1, Total: 1, Txs: someValid(1 + r.Intn(4))}
 	case 1: // TransactionList on a live conversation with whatever content
-		if live && r.Intn(3) == 0 {
+		if live && r.Intn(3) != 0 {
 			// right transaction, WRONG payload (rolls the write transaction back) / boundary clocks of a range conversation
 			l := someValid(1 + r.Intn(2))
 			l[0].Pl = g.plName(ly.trunk + 1)
@@ -641,6 +644,13 @@ func vReplay(t *testing.T, path string, outDir string, build func(s *vSim, kind 
 			rounds, post := 0, 0
 			if lastOp == "observe" && len(s.nodes) > 1 {
 				// the recorded schedule is a prefix: follow it with a fresh (adaptive) fair suffix
+				for _, cc := range s.sc.Conns {
+					c := s.nodes[cc.At].conns[cc.Peer]
+					_, _, _, _, hasQ := gossip.VerifQueue(s.nodes[cc.At].p.gManager, c.peer)
+					if !c.connected || !hasQ {
+						s.exec(&vOp{Op: "conn", N: cc.At, Peer: cc.Peer, Mode: "connect"})
+					}
+				}
 				_, diffNow := s.startSets()
 				rounds = s.fairSuffix(30+diffNow/40, 1)
 				post = s.stabilityProbe()
